@@ -457,7 +457,9 @@ std::vector<Token> get_replacement(
         break;
       }
       case Theo::Token::TEMP_VAL: {
-        std::string text = cand.text + ":" + cand.file + ":" +
+        // named after the place where the body begins, not after the file of
+        // the token itself: a body may continue in an included file
+        std::string text = cand.text + ":" + def.replacement[0].file + ":" +
                            std::to_string(def.replacement[0].line) + "_(M" +
                            std::to_string(pass) + ")";
         Token next = cand;
